@@ -2,7 +2,7 @@
 // Use of this source code is governed by a BSD-style
 // license that can be found in the LICENSE file.
 
-package interp
+package main
 
 // Values
 //
@@ -38,9 +38,6 @@ import (
 	"bytes"
 	"fmt"
 	"go/types"
-	"io"
-	"reflect"
-	"strings"
 	"sync"
 	"unsafe"
 
@@ -99,6 +96,8 @@ var (
 // hashType returns a hash for t such that
 // types.Identical(x, y) => hashType(x) == hashType(y).
 func hashType(t types.Type) int {
+	mu.Lock()
+	defer mu.Unlock()
 	return int(hasher.Hash(t))
 }
 
@@ -147,7 +146,7 @@ func (x structure) eq(t types.Type, _y interface{}) bool {
 	y := _y.(structure)
 	tStruct := t.Underlying().(*types.Struct)
 	for i, n := 0, tStruct.NumFields(); i < n; i++ {
-		if f := tStruct.Field(i); !f.Anonymous() {
+		if f := tStruct.Field(i); f.Name() != "_" {
 			if !equals(f.Type(), x[i], y[i]) {
 				return false
 			}
@@ -160,7 +159,7 @@ func (x structure) hash(t types.Type) int {
 	tStruct := t.Underlying().(*types.Struct)
 	h := 0
 	for i, n := 0, tStruct.NumFields(); i < n; i++ {
-		if f := tStruct.Field(i); !f.Anonymous() {
+		if f := tStruct.Field(i); f.Name() != "_" {
 			h += hash(t, f.Type(), x[i])
 		}
 	}
@@ -234,8 +233,11 @@ func equals(t types.Type, x, y value) bool {
 		return x == y.(string)
 	case *value:
 		return x == y.(*value)
-	case chan value:
-		return x == y.(chan value)
+	case *vchan:
+		return x == y.(*vchan)
+	case unsafePtr:
+		yp, ok := y.(unsafePtr)
+		return ok && x.p == yp.p
 	case structure:
 		return x.eq(t, y)
 	case array:
@@ -295,8 +297,8 @@ func hash(outer, t types.Type, x value) int {
 		return hashString(x)
 	case *value:
 		return int(uintptr(unsafe.Pointer(x)))
-	case chan value:
-		return int(uintptr(reflect.ValueOf(x).Pointer()))
+	case *vchan:
+		return int(uintptr(unsafe.Pointer(x)))
 	case structure:
 		return x.hash(t)
 	case array:
@@ -366,35 +368,35 @@ func writeValue(buf *bytes.Buffer, v value) {
 	case nil, bool, int, int8, int16, int32, int64, uint, uint8, uint16, uint32, uint64, uintptr, float32, float64, complex64, complex128, string:
 		fmt.Fprintf(buf, "%v", v)
 
-	case map[value]value:
+	case *omap:
 		buf.WriteString("map[")
 		sep := ""
-		for k, e := range v {
-			buf.WriteString(sep)
-			sep = " "
-			writeValue(buf, k)
-			buf.WriteString(":")
-			writeValue(buf, e)
-		}
-		buf.WriteString("]")
-
-	case *hashmap:
-		buf.WriteString("map[")
-		sep := " "
-		for _, e := range v.entries() {
-			for e != nil {
+		if v != nil {
+			for _, e := range v.entries {
+				if e.dead {
+					continue
+				}
 				buf.WriteString(sep)
 				sep = " "
 				writeValue(buf, e.key)
 				buf.WriteString(":")
-				writeValue(buf, e.value)
-				e = e.next
+				writeValue(buf, e.val)
 			}
 		}
 		buf.WriteString("]")
 
-	case chan value:
-		fmt.Fprintf(buf, "%v", v) // (an address)
+	case *vchan:
+		fmt.Fprintf(buf, "%p", v) // (an address)
+
+	case sym:
+		buf.WriteString(v.String())
+
+	case *symstr:
+		if s, ok := concreteStr(v); ok {
+			buf.WriteString(s)
+		} else {
+			fmt.Fprintf(buf, "<symstr len=%d>", len(v.b))
+		}
 
 	case *value:
 		if v == nil {
@@ -470,55 +472,3 @@ func toString(v value) string {
 // ------------------------------------------------------------------------
 // Iterators
 
-type stringIter struct {
-	*strings.Reader
-	i int
-}
-
-func (it *stringIter) next() tuple {
-	okv := make(tuple, 3)
-	ch, n, err := it.ReadRune()
-	ok := err != io.EOF
-	okv[0] = ok
-	if ok {
-		okv[1] = it.i
-		okv[2] = ch
-	}
-	it.i += n
-	return okv
-}
-
-type mapIter struct {
-	iter *reflect.MapIter
-	ok   bool
-}
-
-func (it *mapIter) next() tuple {
-	it.ok = it.iter.Next()
-	if !it.ok {
-		return []value{false, nil, nil}
-	}
-	k, v := it.iter.Key().Interface(), it.iter.Value().Interface()
-	return []value{true, k, v}
-}
-
-type hashmapIter struct {
-	iter *reflect.MapIter
-	ok   bool
-	cur  *entry
-}
-
-func (it *hashmapIter) next() tuple {
-	for {
-		if it.cur != nil {
-			k, v := it.cur.key, it.cur.value
-			it.cur = it.cur.next
-			return []value{true, k, v}
-		}
-		it.ok = it.iter.Next()
-		if !it.ok {
-			return []value{false, nil, nil}
-		}
-		it.cur = it.iter.Value().Interface().(*entry)
-	}
-}
